@@ -63,10 +63,16 @@ fn call(t: &mut Box<dyn StorageTxn + '_>, c: &Value) -> Value {
     }
 }
 
-pub fn replay(j: &Value) -> Value {
+pub fn replay(j: &Value, backend: &str) -> Value {
     let mut out = Vec::new();
     for script in j["scripts"].as_array().expect("scripts") {
-        let storage = InMemoryStorage::new();
+        // each script runs on a fresh store of the chosen REAL backend
+        let tmp = tempfile::TempDir::new().expect("temp dir");
+        let storage: Box<dyn Storage> = if backend == "sqlite" {
+            Box::new(taskchampion_sync_server_storage_sqlite::SqliteStorage::new(tmp.path()).expect("open sqlite"))
+        } else {
+            Box::new(InMemoryStorage::new())
+        };
         let mut steps = Vec::new();
         for step in script["steps"].as_array().expect("steps") {
             let client = id(&step["client"]);
